@@ -98,6 +98,25 @@ func engineREC(w *World, tier string) *EngineResult {
 		}
 		if guarded {
 			r.holds("REC", fnKey(fn), construct, "recursion guarded by "+why, pos)
+			// REC-key: a visited set must be keyed by the identity of a node of the graph that is
+			// walked — the key type of the visited map is the key type of the graph map. A set
+			// keyed by a projection (the short class name) prunes distinct nodes that share it.
+			for _, prm := range fn.Params {
+				vm, isMap := prm.Type().Underlying().(*types.Map)
+				if !isMap || !strings.HasPrefix(why, "visited set "+prm.Name()) {
+					continue
+				}
+				gm, ok := g.Type().(*types.Pointer).Elem().Underlying().(*types.Map)
+				if !ok {
+					continue
+				}
+				c2 := "visited set of the walk over " + globalName(g)
+				if types.Identical(vm.Key(), gm.Key()) {
+					r.holds("REC-key", fnKey(fn), c2, "the visited set is keyed by the node type of the graph ("+types.TypeString(gm.Key(), func(p *types.Package) string { return p.Name() })+")", pos)
+				} else {
+					r.violated("REC-key", fnKey(fn), c2, fmt.Sprintf("the visited set is keyed by %s but the nodes of %s are %s: two distinct nodes with the same projection (same-named classes in different namespaces) are taken for one, and everything above the second is pruned from the walk", types.TypeString(vm.Key(), nil), globalName(g), types.TypeString(gm.Key(), func(p *types.Package) string { return p.Name() })), pos)
+				}
+			}
 		} else {
 			var ps []string
 			for _, c := range selfCalls {
